@@ -22,8 +22,8 @@ void verif_random_reset(uint32_t);
 
 const char *verif_property = "C10";
 const char *verif_class_names[] = { "all_levels_busy_9_iterations", "higher_level_saturated", "jobs", "descriptors", "timers", "source_joined_midrun", "source_left_midrun",
-	"nine_or_more_on_one_level", "job_only_level", NULL };
-enum { K_BUSY9, K_SAT, K_JOBS, K_FDS, K_TIMERS, K_JOIN, K_LEAVE, K_NINE, K_JOBONLY };
+	"nine_or_more_on_one_level", "job_only_level", "descriptor_moved_and_removed", NULL };
+enum { K_BUSY9, K_SAT, K_JOBS, K_FDS, K_TIMERS, K_JOIN, K_LEAVE, K_NINE, K_JOBONLY, K_MODDEL };
 const char *verif_rule =
 	"case = initial sources (self-re-adding jobs, always-readable pipes, zero-delay re-arming timers; 0..10 per priority) plus join/leave decisions taken inside callbacks, 30-300 loop iterations; "
 	"non-trivial = all three levels continuously busy for >= 9 iterations with a higher level saturated (>= 5 sources); distinct = hash of decoded workload";
@@ -43,6 +43,7 @@ static int iterations, max_iter, churn_budget;
 static std::vector<std::vector<int>> DISP;	/* DISP[level] = iterations in which the level dispatched (with repeats) */
 
 static void arm(source &s);
+static int32_t fd_cb(int32_t fd, int32_t revents, void *data);
 static void add_source(int kind, int prio);
 
 static void maybe_churn(source &self)
@@ -51,6 +52,18 @@ static void maybe_churn(source &self)
 	unsigned k = vr_u8(&V);
 	if (k % 16 == 0) { churn_budget--; add_source(vr_u8(&V) % 3, vr_u8(&V) % 3); VCLASS(R, K_JOIN); }
 	else if (k % 16 == 1) { churn_budget--; self.active = false; self.left_iter = iterations; VCLASS(R, K_LEAVE); VLOG(R, " [it %d] source %d (level %d) leaves\n", iterations, self.id, self.prio); }
+	else if (k % 16 == 2) {
+		/* another descriptor source is moved to a different priority and removed right away (it may be queued for dispatch at this moment) */
+		for (auto &o : SRC) if (&o != &self && o.kind == S_FD && o.active) {
+			int np = (o.prio + 1 + (int)(vr_u8(&V) % 2)) % 3;
+			churn_budget--;
+			if (qb_loop_poll_mod(L, (enum qb_loop_priority)np, o.rfd, POLLIN, &o, fd_cb) != 0) { VFAIL(R, "poll-mod", "qb_loop_poll_mod of a registered descriptor failed"); return; }
+			if (qb_loop_poll_del(L, o.rfd) != 0) { VFAIL(R, "poll-del", "qb_loop_poll_del of a registered descriptor failed"); return; }
+			o.active = false; o.left_iter = iterations; VCLASS(R, K_LEAVE); VCLASS(R, K_MODDEL);
+			VLOG(R, " [it %d] source %d (level %d) is moved to level %d and removed\n", iterations, o.id, o.prio, np);
+			break;
+		}
+	}
 }
 
 static void job_cb(void *data)
